@@ -1,15 +1,36 @@
 /* C09 - packed bit arrays: element isolation and sorted-array semantics.
  *
- * case layout:  config:1  n:2  then 7-byte records  op:1 idx:2 value:4
+ * case layout:  config:1  n:2  x:1  [large:2]  then 7-byte records
+ *                                               op:1 idx:2 value:4
  *
  *   config   index into the generated instantiation table (mod count)
  *   n        bits 0-8 raw length, 9-10 length class (1..24 / 1..24 / 1..80 /
  *            1..300), 11-12 background fill of the storage (0x00, 0xff,
  *            pseudo-random, 0xaa/0x55), 13-14 aux (sorted mode: initial live
  *            length n, n-1, n/2, 0), 15 mode (0 positional, 1 sorted)
+ *   x        history class: a value in [0x41, 0x41+k) selects a LARGE history
+ *            (k = 3 on the quick tier, ~1 % of the cases; 8 on the thorough
+ *            tier, ~2.7 %); every other value (0 included) the small one above
+ *   large    only present in a large history: bits 0-2 length class, 3-15 raw;
+ *            the array has up to nmax elements, nmax = PACK_MAX_ELEMENTS of the
+ *            instantiation or 70000 when it has no limit (or a limit above
+ *            that): anywhere in 301..nmax / nmax / nmax-0..63 / just past the
+ *            element whose bit position crosses 2^16 / thousands / between
+ *            that element and nmax / just past 65536 elements.  In a large
+ *            history aux also selects how the array is initialised (positional:
+ *            as found / every element written ascending / descending /
+ *            strided) and idx selects positions concentrated at the last
+ *            elements, around i*BITS = 2^16..2^21, in the upper half and in
+ *            the first 64 elements.
  *   records  positional mode: set get incr half insert delete   (op % 6)
  *            sorted mode:     insertSorted member deleteMember binarySearch
  *                             delete get                         (op % 6)
+ *
+ * Bit position 2^32 is not reached by generated histories: it needs >= 512 MiB
+ * of storage per case (2^27 32-bit elements); the largest generated array has
+ * 70000 elements (280 KB).  Only the deterministic sweep goes there, with a
+ * fixed script on a sparse MAP_NORESERVE mapping of which just the first
+ * 128 KiB and the page around bit position 2^32 are ever touched.
  *
  * The storage holds exactly the slots n elements need (vf_exact_alloc: ASan
  * redzone, or canaries in the gcc configurations).  The caller tracks the
@@ -23,15 +44,27 @@
  * and the guards are unchanged; query results equal the reference's
  * (first equal index or -1; lower bound).  Under ASan every set/get is
  * additionally executed on a copy of the storage in which every byte outside
- * the slots the element occupies is poisoned. */
+ * the slots the element occupies is poisoned.
+ *
+ * large histories (aliasing of a wrapped bit position shows up far away from
+ * the written index): after every record (1) every storage byte outside the
+ * slots of the elements the operation may write equals a shadow copy taken
+ * before it, (2) the elements the operation may write +-8, the first and last
+ * 64 elements and the elements around every power-of-two bit position read
+ * back as the reference - all n elements when n <= 12000 (quick) / 24000
+ * (thorough) - and (3) at the end of the history all n elements are compared. */
 #include "vf.h"
+
+#include <sys/mman.h>
 
 #include "c09_packed.h"
 
 const char *vf_prop_id = "C09";
 const size_t vf_case_maxlen = 200;
 
-#define MAXN 300
+#define SMALLN 300        /* small histories: whole array compared every time */
+#define UNLIMITED_N 70000 /* large histories of instantiations without limit  */
+#define LARGE_X0 0x41
 
 #if defined(__has_feature)
 #if __has_feature(address_sanitizer)
@@ -75,6 +108,18 @@ enum {
     K_ISO,
     K_SORTED_EMPTY,
     K_INCR_TO_MAX,
+    K_LARGE,
+    K_LARGE_SORTED,
+    K_LARGE_POS,
+    K_LARGE_NMAX,
+    K_LARGE_SETALL,
+    K_LARGE_LAST,
+    K_LARGE_LOW,
+    K_LARGE_FULLSHIFT,
+    K_BITPOS16,
+    K_CROSS16,
+    K_CROSS17UP,
+    K_LEN_GT16,
     K_N
 };
 static const char *const kname[K_N] = {
@@ -86,6 +131,11 @@ static const char *const kname[K_N] = {
     "straddle",        "shift.sorted",     "shift.positional",
     "insert.at-capacity", "last-element",  "iso.poisoned",
     "sorted.empty",    "incr.to-max",
+    "large",           "large.sorted",     "large.positional",
+    "large.n-at-max",  "large.init-setall", "large.last-element",
+    "large.first-64",  "large.shift-over-1000",
+    "bitpos.ge-2^16",  "bitpos.crossing-2^16", "bitpos.crossing-2^17..21",
+    "len.gt-65535",
 };
 
 typedef struct hist {
@@ -98,7 +148,13 @@ typedef struct hist {
     unsigned n; /* capacity == number of elements compared */
     size_t slots, bytes;
     uint8_t *mem;
-    uint32_t ref[MAXN];
+    uint32_t *ref;   /* n entries */
+    int large;       /* large history: shadow + watched regions */
+    uint8_t *shadow; /* large: copy of the storage before the operation */
+    unsigned fullBound; /* large: n up to which every element is compared */
+    unsigned c16;    /* first element whose first bit is at or beyond 2^16 */
+    unsigned watch[512];
+    unsigned nwatch;
     int hasTail;
     unsigned used; /* bits of the last slot that belong to elements */
     uint64_t tail0;
@@ -148,32 +204,37 @@ static int straddles(const hist *h, unsigned i) {
     return first / h->S != (first + h->B - 1) / h->S;
 }
 
-/* compare the whole array, the tail bits and the guards with the reference.
- * target: index of the element the operation addressed, or -1 when the
- * operation is allowed to move many elements (the reference says which). */
-static int check_state(hist *h, const char *op, int target) {
+static size_t first_byte_of(const hist *h, unsigned i) {
+    return (size_t)(((uint64_t)i * h->B) / h->S) * h->sb;
+}
+static size_t end_byte_of(const hist *h, unsigned i) {
+    return (size_t)(((uint64_t)i * h->B + h->B - 1) / h->S + 1) * h->sb;
+}
+
+static int cmp_one(hist *h, const char *op, int target, unsigned i) {
     char site[64];
-    for (unsigned i = 0; i < h->n; i++) {
-        uint32_t g = h->in->get(h->mem, i);
-        if (g != h->ref[i]) {
-            if (target >= 0 && (unsigned)target != i) {
-                snprintf(site, sizeof(site), "%s.neighbour", op);
-                return vf_fail(h->rep, site, "isolation",
-                               "%s n=%u record %u %s: element %u (which the "
-                               "operation does not address) now reads 0x%x, "
-                               "was 0x%x",
-                               h->in->name, h->n, h->recno, h->opdesc, i, g,
-                               h->ref[i]);
-            }
-            snprintf(site, sizeof(site), "%s.%s", op,
-                     target >= 0 ? "self" : "array");
-            return vf_fail(h->rep, site, "value",
-                           "%s n=%u record %u %s: element %u reads 0x%x, "
-                           "reference 0x%x",
-                           h->in->name, h->n, h->recno, h->opdesc, i, g,
-                           h->ref[i]);
-        }
+    uint32_t g = h->in->get(h->mem, i);
+    if (g == h->ref[i]) {
+        return 0;
     }
+    if (target >= 0 && (unsigned)target != i) {
+        snprintf(site, sizeof(site), "%s.neighbour", op);
+        return vf_fail(h->rep, site, "isolation",
+                       "%s n=%u record %u %s: element %u (which the "
+                       "operation does not address) now reads 0x%x, "
+                       "was 0x%x",
+                       h->in->name, h->n, h->recno, h->opdesc, i, g,
+                       h->ref[i]);
+    }
+    snprintf(site, sizeof(site), "%s.%s", op, target >= 0 ? "self" : "array");
+    return vf_fail(h->rep, site, "value",
+                   "%s n=%u record %u %s: element %u reads 0x%x, "
+                   "reference 0x%x",
+                   h->in->name, h->n, h->recno, h->opdesc, i, g, h->ref[i]);
+}
+
+static int check_tail_guard(hist *h, const char *op) {
+    char site[64];
     if (h->hasTail) {
         uint64_t t = tail_bits(h);
         if (t != h->tail0) {
@@ -197,9 +258,110 @@ static int check_state(hist *h, const char *op, int target) {
     return 0;
 }
 
-/* fill: 0 zero, 1 ones, 2 pseudo-random(seed), 3 0xaa, 4 0x55 */
+/* every element, the tail bits and the guards */
+static int check_full(hist *h, const char *op, int target) {
+    for (unsigned i = 0; i < h->n; i++) {
+        if (cmp_one(h, op, target, i)) {
+            return 1;
+        }
+    }
+    return check_tail_guard(h, op);
+}
+
+/* large history: [a, b] are the elements the operation may write (a > b:
+ * none).  Bytes outside their slots must equal the shadow copy. */
+static int check_large(hist *h, const char *op, int target, unsigned a,
+                       unsigned b) {
+    size_t lo = 0, hi = 0;
+    if (a <= b) {
+        lo = first_byte_of(h, a);
+        hi = end_byte_of(h, b);
+        if (hi > h->bytes) {
+            hi = h->bytes; /* cannot happen for a, b < n */
+        }
+    }
+    if (memcmp(h->mem, h->shadow, lo) != 0 ||
+        memcmp(h->mem + hi, h->shadow + hi, h->bytes - hi) != 0) {
+        size_t d = 0;
+        while (d < h->bytes &&
+               ((d >= lo && d < hi) || h->mem[d] == h->shadow[d])) {
+            d++;
+        }
+        uint64_t e = (uint64_t)d * 8 / h->B;
+        char site[64];
+        snprintf(site, sizeof(site), "%s.storage", op);
+        if (a <= b) {
+            return vf_fail(h->rep, site, "isolation",
+                           "%s n=%u record %u %s: storage byte %zu (bits of "
+                           "element %llu) changed 0x%02x -> 0x%02x; the "
+                           "operation may only write elements %u..%u, bytes "
+                           "[%zu,%zu)",
+                           h->in->name, h->n, h->recno, h->opdesc, d,
+                           (unsigned long long)e, h->shadow[d], h->mem[d], a,
+                           b, lo, hi);
+        }
+        return vf_fail(h->rep, site, "isolation",
+                       "%s n=%u record %u %s: storage byte %zu (bits of "
+                       "element %llu) changed 0x%02x -> 0x%02x during a query",
+                       h->in->name, h->n, h->recno, h->opdesc, d,
+                       (unsigned long long)e, h->shadow[d], h->mem[d]);
+    }
+    if (hi > lo) {
+        memcpy(h->shadow + lo, h->mem + lo, hi - lo);
+    }
+    if (h->n <= h->fullBound) {
+        return check_full(h, op, target);
+    }
+    if (a <= b) {
+        unsigned from = a > 8 ? a - 8 : 0;
+        unsigned to = b + 8 < h->n ? b + 8 : h->n - 1;
+        for (unsigned i = from; i <= to; i++) {
+            if (cmp_one(h, op, target, i)) {
+                return 1;
+            }
+        }
+    }
+    for (unsigned k = 0; k < h->nwatch; k++) {
+        if (cmp_one(h, op, target, h->watch[k])) {
+            return 1;
+        }
+    }
+    return check_tail_guard(h, op);
+}
+
+/* compare the array, the tail bits and the guards with the reference.
+ * target: index of the element the operation addressed, or -1 when the
+ * operation is allowed to move many elements (the reference says which);
+ * [a, b]: the elements the operation may write (a > b: none). */
+static int check_state(hist *h, const char *op, int target, unsigned a,
+                       unsigned b) {
+    if (h->large) {
+        return check_large(h, op, target, a, b);
+    }
+    return check_full(h, op, target);
+}
+#define NOWRITE 1, 0
+
+static void watch_add(hist *h, unsigned from, unsigned to) {
+    for (unsigned i = from; i <= to && i < h->n; i++) {
+        if (h->nwatch < sizeof(h->watch) / sizeof(h->watch[0])) {
+            h->watch[h->nwatch++] = i;
+        }
+    }
+}
+
+static uint32_t setall_value(const hist *h, uint64_t seed, unsigned i) {
+    return (uint32_t)(vf_mix(seed, i) >> 17) & h->mask;
+}
+
+/* fill: 0 zero, 1 ones, 2 pseudo-random(seed), 3 0xaa, 4 0x55
+ * large: keep a shadow copy and watched regions instead of comparing every
+ * element after every operation
+ * init (large only): 0 reference = what the storage holds; 1/2/3 every
+ * element is written (ascending / descending / strided order) with a value
+ * derived from (seed, index) and the whole array is compared afterwards */
 static int hist_open(hist *h, vf_report *rep, const c09_inst *in, unsigned n,
-                     unsigned fill, uint64_t seed) {
+                     unsigned fill, uint64_t seed, int large, unsigned init) {
     h->rep = rep;
     h->in = in;
     h->B = in->bits;
@@ -213,9 +375,18 @@ static int hist_open(hist *h, vf_report *rep, const c09_inst *in, unsigned n,
     h->used = (unsigned)(totalBits - (uint64_t)(h->slots - 1) * h->S);
     h->hasTail = h->used < h->S;
     h->recno = 0;
+    h->large = large;
+    h->shadow = NULL;
+    h->nwatch = 0;
+    h->fullBound = vf_tier() ? 24000 : 12000;
+    h->c16 = (65536 + h->B - 1) / h->B;
     snprintf(h->opdesc, sizeof(h->opdesc), "init");
     memset(h->k, 0, sizeof(h->k));
+    h->ref = (uint32_t *)malloc((size_t)n * sizeof(h->ref[0]));
     h->mem = (uint8_t *)vf_exact_alloc(h->bytes);
+    if (!h->ref) {
+        abort();
+    }
     switch (fill) {
     case 0:
         memset(h->mem, 0x00, h->bytes);
@@ -238,6 +409,18 @@ static int hist_open(hist *h, vf_report *rep, const c09_inst *in, unsigned n,
         break;
     }
     h->tail0 = tail_bits(h);
+    if (large) {
+        h->shadow = (uint8_t *)malloc(h->bytes);
+        if (!h->shadow) {
+            abort();
+        }
+        watch_add(h, 0, 63);
+        watch_add(h, n > 64 ? n - 64 : 0, n - 1);
+        for (unsigned p = 8; p < 40 && ((uint64_t)1 << p) < totalBits; p++) {
+            unsigned e = (unsigned)(((uint64_t)1 << p) / h->B);
+            watch_add(h, e > 4 ? e - 4 : 0, e + 4);
+        }
+    }
     /* the reference starts from what the storage holds; an element is B bits
      * wide, so a read can never exceed the mask */
     for (unsigned i = 0; i < n; i++) {
@@ -250,12 +433,53 @@ static int hist_open(hist *h, vf_report *rep, const c09_inst *in, unsigned n,
         }
         h->ref[i] = g;
     }
+    if (large && init) {
+        /* write every element once; the order decides which neighbours are
+         * already populated when an element is written */
+        unsigned step = 1;
+        if (init == 3) {
+            static const unsigned primes[4] = {7919, 104729, 611953, 1299709};
+            for (unsigned k = 0; k < 4; k++) {
+                if (n % primes[k] != 0) {
+                    step = primes[k] % n;
+                    break;
+                }
+            }
+            if (step == 0) {
+                step = 1;
+            }
+        }
+        unsigned i = init == 2 ? n - 1 : 0;
+        for (unsigned c = 0; c < n; c++) {
+            uint32_t v = setall_value(h, seed, i);
+            in->set(h->mem, i, v);
+            h->ref[i] = v;
+            if (init == 2) {
+                i = i ? i - 1 : n - 1;
+            } else {
+                i = (unsigned)(((uint64_t)i + step) % n);
+            }
+        }
+        h->k[K_LARGE_SETALL]++;
+        snprintf(h->opdesc, sizeof(h->opdesc),
+                 "init(set of every element, order %u)", init);
+        if (check_full(h, "init", -1)) {
+            return 1;
+        }
+    }
+    if (large) {
+        memcpy(h->shadow, h->mem, h->bytes);
+    }
     return 0;
 }
 
 static void hist_close(hist *h) {
     vf_exact_free(h->mem);
+    free(h->ref);
+    free(h->shadow);
     h->mem = NULL;
+    h->ref = NULL;
+    h->shadow = NULL;
 }
 
 #if C09_ASAN
@@ -295,7 +519,85 @@ static void iso_close(iso *s) {
 }
 #endif
 
+/* large history: position in [0, range) from 3 selector bits and 13 raw bits;
+ * 0 -> element 0 */
+static unsigned pick_large(const hist *h, uint16_t idx, unsigned range) {
+    unsigned sel = idx >> 13, raw = idx & 0x1fff;
+    unsigned r;
+    switch (sel) {
+    case 0: /* anywhere */
+        r = (unsigned)((uint64_t)raw * range / 8192);
+        break;
+    case 1: /* the very last one */
+        r = range - 1;
+        break;
+    case 2: /* the last 64 */
+        r = raw % 64 < range ? range - 1 - raw % 64 : 0;
+        break;
+    case 3: /* around the element whose bit position crosses 2^16 */
+        r = (h->c16 > 8 ? h->c16 - 8 : 0) + raw % 16;
+        if (r >= range) {
+            r = raw % 16 < range ? range - 1 - raw % 16 : 0;
+        }
+        break;
+    case 4: /* upper half */
+        r = range / 2 + raw % (range - range / 2);
+        break;
+    case 5: { /* around bit position 2^16 .. 2^21 */
+        unsigned e = (unsigned)(((uint64_t)1 << (16 + (raw >> 4) % 6)) / h->B);
+        r = (e > 8 ? e - 8 : 0) + raw % 16;
+        if (r >= range) {
+            r = raw % 16 < range ? range - 1 - raw % 16 : 0;
+        }
+        break;
+    }
+    case 6: /* the first 64 */
+        r = raw % 64;
+        break;
+    default: /* anywhere beyond bit position 2^16 */
+        if (h->c16 < range) {
+            r = h->c16 +
+                (unsigned)((uint64_t)raw * (range - h->c16) / 8192);
+        } else {
+            r = raw % 8 < range ? range - 1 - raw % 8 : 0;
+        }
+        break;
+    }
+    return r < range ? r : range - 1;
+}
+
+/* position in [0, range) for offsets of insert/delete: concentrated near the
+ * end (short shifts), with a fixed share of shifts of the whole array */
+static unsigned pick_large_off(const hist *h, unsigned idx9, unsigned range) {
+    unsigned sel = idx9 >> 6, raw = idx9 & 63;
+    unsigned r;
+    switch (sel) {
+    case 0:
+        r = raw < range ? range - 1 - raw : 0;
+        break;
+    case 1:
+        r = range - 1;
+        break;
+    case 2:
+        r = raw;
+        break;
+    case 3:
+        r = (h->c16 > 32 ? h->c16 - 32 : 0) + raw;
+        break;
+    case 4:
+        r = range / 2 + raw;
+        break;
+    default:
+        r = raw * 8 < range ? range - 1 - raw * 8 : 0;
+        break;
+    }
+    return r < range ? r : range - 1;
+}
+
 static unsigned pick_index(const hist *h, uint16_t idx) {
+    if (h->large) {
+        return pick_large(h, idx, h->n);
+    }
     if (((idx >> 9) & 7) == 7) {
         return h->n - 1;
     }
@@ -395,7 +697,7 @@ static int do_set(hist *h, unsigned i, uint32_t v) {
                        h->in->name, h->n, h->recno, h->opdesc);
     }
 #endif
-    return check_state(h, "set", (int)i);
+    return check_state(h, "set", (int)i, i, i);
 }
 
 static int do_get(hist *h, unsigned i) {
@@ -419,7 +721,7 @@ static int do_get(hist *h, unsigned i) {
                        h->in->name, h->n, h->recno, h->opdesc, gi, h->ref[i]);
     }
 #endif
-    return check_state(h, "get", -1);
+    return check_state(h, "get", -1, NOWRITE);
 }
 
 static void note_elem(hist *h, unsigned i, int *nontrivial) {
@@ -429,31 +731,156 @@ static void note_elem(hist *h, unsigned i, int *nontrivial) {
     }
     if (i == h->n - 1) {
         h->k[K_LAST_ELEMENT]++;
+        if (h->large) {
+            h->k[K_LARGE_LAST]++;
+        }
+    }
+    if (!h->large) {
+        return;
+    }
+    if (i < 64) {
+        h->k[K_LARGE_LOW]++;
+    }
+    if ((uint64_t)i * h->B >= 65536) {
+        h->k[K_BITPOS16]++;
+    }
+    if (i + 8 >= h->c16 && i <= h->c16 + 8) {
+        h->k[K_CROSS16]++;
+    }
+    for (unsigned p = 17; p <= 21; p++) {
+        uint64_t e = ((uint64_t)1 << p) / h->B;
+        if (i + 8 >= e && i <= e + 8) {
+            h->k[K_CROSS17UP]++;
+        }
+    }
+}
+
+/* an operation that reads or writes elements up to index top (shifts, binary
+ * searches), called with the length argument len */
+static void note_range(hist *h, unsigned len, unsigned top, unsigned shifted) {
+    if ((uint64_t)top * h->B >= 65536) {
+        h->k[K_BITPOS16]++;
+    }
+    if (len > 65535) {
+        h->k[K_LEN_GT16]++;
+    }
+    if (shifted > 1000) {
+        h->k[K_LARGE_FULLSHIFT]++;
     }
 }
 
 #define OPDESC(h, ...) snprintf((h)->opdesc, sizeof((h)->opdesc), __VA_ARGS__)
 
+static unsigned inst_nmax(const c09_inst *in) {
+    return in->maxElements && in->maxElements < UNLIMITED_N
+               ? (unsigned)in->maxElements
+               : UNLIMITED_N;
+}
+
+/* nondecreasing sequence of L values in [0, mask]: many duplicates, placed
+ * low, high or spread over the value range (counting sort: R <= L + 3) */
+static void sorted_init(hist *h, unsigned L, uint64_t seed) {
+    uint64_t s = seed | 1;
+    uint64_t R = (uint64_t)h->mask + 1;
+    if (R > (uint64_t)L + 3) {
+        R = (uint64_t)L + 3;
+    }
+    unsigned region = (unsigned)(vf_xs(&s) % 3);
+    uint32_t *cnt = (uint32_t *)calloc((size_t)R, sizeof(uint32_t));
+    if (!cnt) {
+        abort();
+    }
+    for (unsigned i = 0; i < L; i++) {
+        cnt[vf_xs(&s) % R]++;
+    }
+    unsigned i = 0;
+    for (uint64_t rk = 0; rk < R; rk++) {
+        uint32_t v;
+        if (region == 0) {
+            v = (uint32_t)rk;
+        } else if (region == 1) {
+            v = h->mask - (uint32_t)(R - 1) + (uint32_t)rk;
+        } else {
+            v = R > 1 ? (uint32_t)rk * (h->mask / (uint32_t)(R - 1)) : 0;
+        }
+        for (uint32_t c = 0; c < cnt[rk]; c++, i++) {
+            h->in->set(h->mem, i, v);
+            h->ref[i] = v;
+        }
+    }
+    free(cnt);
+}
+
 void vf_run(vf_rd *r, vf_report *rep) {
-    static hist H; /* 1.2 KiB reference; keep it off the stack */
+    static hist H;
     hist *h = &H;
     unsigned cfg = vf_u8(r) % c09_ninst;
     uint16_t n16 = vf_u16(r);
+    uint8_t x = vf_u8(r);
     const c09_inst *in = c09_get(cfg);
+    const unsigned nmax = inst_nmax(in);
+    const int large = x >= LARGE_X0 && x < LARGE_X0 + (vf_tier() ? 8 : 3);
+    const unsigned c16 = (65536 + in->bits - 1) / in->bits;
 
     unsigned nraw = n16 & 0x1ff;
     unsigned n;
-    switch ((n16 >> 9) & 3) {
-    case 0:
-    case 1:
-        n = 1 + nraw % 24;
-        break;
-    case 2:
-        n = 1 + nraw % 80;
-        break;
-    default:
-        n = 1 + nraw % MAXN;
-        break;
+    unsigned maxrec = ~0u;
+    if (!large) {
+        switch ((n16 >> 9) & 3) {
+        case 0:
+        case 1:
+            n = 1 + nraw % 24;
+            break;
+        case 2:
+            n = 1 + nraw % 80;
+            break;
+        default:
+            n = 1 + nraw % SMALLN;
+            break;
+        }
+        if (n > nmax) {
+            n = nmax; /* PACK_MAX_ELEMENTS 255 */
+        }
+    } else {
+        uint16_t lh = vf_u16(r);
+        unsigned lraw = lh >> 3;
+        unsigned lo = nmax < SMALLN + 1 ? nmax : SMALLN + 1;
+        switch (lh & 7) {
+        case 0: /* anywhere in lo..nmax */
+            n = lo + (unsigned)((uint64_t)lraw * (nmax - lo + 1) / 8192);
+            break;
+        case 1:
+            n = nmax;
+            break;
+        case 2:
+            n = nmax - lraw % 64;
+            break;
+        case 3: /* the element at bit position 2^16 is among the last */
+            n = c16 + 1 + lraw % 128;
+            break;
+        case 4: /* thousands */
+            n = lo + lraw;
+            break;
+        case 5: /* between that element and nmax */
+            n = c16 < nmax
+                    ? c16 + 1 +
+                          (unsigned)((uint64_t)lraw * (nmax - c16) / 8192)
+                    : nmax;
+            break;
+        case 6: /* more than 65535 elements */
+            n = 65537 + lraw % 64;
+            break;
+        default:
+            n = lo + lraw % 4096;
+            break;
+        }
+        if (n > nmax) {
+            n = nmax;
+        }
+        if (n < 1) {
+            n = 1;
+        }
+        maxrec = (n > 20000 ? 8u : 16u) << (vf_tier() ? 1 : 0);
     }
     unsigned fill = (n16 >> 11) & 3;
     unsigned aux = (n16 >> 13) & 3;
@@ -462,6 +889,9 @@ void vf_run(vf_rd *r, vf_report *rep) {
         fill = 4;
     }
     uint64_t seed = vf_mix(vf_mix(0xc09, cfg), n16);
+    if (large) {
+        seed = vf_mix(seed, n);
+    }
     uint64_t hh = seed;
     int nontrivial = 0;
     unsigned L = 0; /* live length (sorted mode) */
@@ -478,7 +908,7 @@ void vf_run(vf_rd *r, vf_report *rep) {
             L = n / 2;
             break;
         default:
-            L = 0;
+            L = large && n > 40 ? n - 40 : 0;
             break;
         }
     }
@@ -487,47 +917,44 @@ void vf_run(vf_rd *r, vf_report *rep) {
     if (sorted) {
         vf_desc(rep, " L0=%u", L);
     }
+    if (large) {
+        vf_desc(rep, " large init=%u", sorted ? 0 : aux);
+    }
     vf_desc(rep, " :");
 
     vf_class(in->name);
-    if (hist_open(h, rep, in, n, fill, seed)) {
+    if (hist_open(h, rep, in, n, fill, seed, large, sorted ? 0 : aux)) {
         goto done;
     }
     h->k[sorted ? K_SORTED : K_POS]++;
+    if (large) {
+        h->k[K_LARGE]++;
+        h->k[sorted ? K_LARGE_SORTED : K_LARGE_POS]++;
+        if (n == nmax) {
+            h->k[K_LARGE_NMAX]++;
+        }
+        if (!in->maxElements) {
+            vf_class("large.unlimited");
+        } else {
+            char cn[48];
+            snprintf(cn, sizeof(cn), "large.max%llu",
+                     (unsigned long long)in->maxElements);
+            vf_class(cn);
+        }
+    }
 
     if (sorted) {
-        /* initial sorted content: L values with many duplicates, placed low,
-         * high or spread over the value range */
-        uint32_t init[MAXN];
-        uint64_t s = seed | 1;
-        uint64_t R = (uint64_t)h->mask + 1;
-        if (R > (uint64_t)L + 3) {
-            R = (uint64_t)L + 3;
-        }
-        unsigned region = (unsigned)(vf_xs(&s) % 3);
-        for (unsigned i = 0; i < L; i++) {
-            uint32_t rk = (uint32_t)(vf_xs(&s) % R);
-            uint32_t v;
-            if (region == 0) {
-                v = rk;
-            } else if (region == 1) {
-                v = h->mask - (uint32_t)(R - 1) + rk;
-            } else {
-                v = R > 1 ? rk * (h->mask / (uint32_t)(R - 1)) : 0;
-            }
-            init[i] = v;
-        }
-        qsort(init, L, sizeof(init[0]), cmp_u32);
-        for (unsigned i = 0; i < L; i++) {
-            in->set(h->mem, i, init[i]);
-            h->ref[i] = init[i];
-        }
+        sorted_init(h, L, seed);
         OPDESC(h, "init(sorted prefix of %u)", L);
-        if (check_state(h, "init", -1)) {
+        if (large) {
+            note_range(h, L, L ? L - 1 : 0, 0);
+            memcpy(h->shadow, h->mem, h->bytes); /* compared in full below */
+        }
+        if (check_full(h, "init", -1)) {
             goto done;
         }
     }
-    while (vf_left(r) >= 7) {
+    while (vf_left(r) >= 7 && h->recno < maxrec) {
         uint8_t opb = vf_u8(r);
         uint16_t idx = vf_u16(r);
         uint32_t w = vf_u32(r);
@@ -586,7 +1013,7 @@ void vf_run(vf_rd *r, vf_report *rep) {
                 hh = vf_mix(vf_mix(vf_mix(hh, 2), i), d);
                 in->incr(h->mem, i, (int64_t)d);
                 h->ref[i] = (uint32_t)(cur + d);
-                bad = check_state(h, "incr", (int)i);
+                bad = check_state(h, "incr", (int)i, i, i);
                 break;
             }
             case 3: { /* half */
@@ -597,7 +1024,7 @@ void vf_run(vf_rd *r, vf_report *rep) {
                 hh = vf_mix(vf_mix(hh, 3), i);
                 in->half(h->mem, i);
                 h->ref[i] /= 2;
-                bad = check_state(h, "half", (int)i);
+                bad = check_state(h, "half", (int)i, i, i);
                 break;
             }
             case 4: { /* insert(len, off, v): writes element [len], len < n */
@@ -609,10 +1036,13 @@ void vf_run(vf_rd *r, vf_report *rep) {
                     len = cap1;
                 } else if (sel == 2) {
                     len = cap1 - lenx % (cap1 + 1);
-                } else {
+                } else if (!large) {
                     len = lenx % (cap1 + 1);
+                } else { /* just past 65535, or the middle */
+                    len = cap1 >= 65536 + lenx ? 65536 + lenx : cap1 / 2;
                 }
-                unsigned off = idx9 % (len + 1);
+                unsigned off = large ? pick_large_off(h, idx9, len + 1)
+                                     : idx9 % (len + 1);
                 uint32_t v = dec_value(h, w, h->ref[off]);
                 OPDESC(h, "insert(len=%u,%u,0x%x)", len, off, v);
                 h->k[K_INSERT]++;
@@ -623,34 +1053,44 @@ void vf_run(vf_rd *r, vf_report *rep) {
                     h->k[K_SHIFT_POS]++;
                     nontrivial = 1;
                 }
+                if (large) {
+                    note_range(h, len, len, len - off);
+                }
                 hh = vf_mix(vf_mix(vf_mix(vf_mix(hh, 4), len), off), v);
                 in->insert(h->mem, len, off, v);
                 ref_insert(h, len, off, v);
-                bad = check_state(h, "insert", -1);
+                bad = check_state(h, "insert", -1, off, len);
                 break;
             }
             default: { /* delete(len, off): 1 <= len <= n, off < len */
                 unsigned sel = w & 3;
-                unsigned x = (w >> 2) & 0xffff;
+                unsigned x16 = (w >> 2) & 0xffff;
                 unsigned len;
                 if (sel < 2) {
                     len = n;
                 } else if (sel == 2) {
-                    len = n - x % n;
+                    len = n - x16 % (large ? (n < 32 ? n : 32) : n);
+                } else if (!large) {
+                    len = 1 + x16 % n;
                 } else {
-                    len = 1 + x % n;
+                    len = n >= 65537 + x16 % 32 ? 65537 + x16 % 32
+                                                : 1 + n / 2;
                 }
-                unsigned off = idx9 % len;
+                unsigned off =
+                    large ? pick_large_off(h, idx9, len) : idx9 % len;
                 OPDESC(h, "delete(len=%u,%u)", len, off);
                 h->k[K_DELETE]++;
                 if (off + 1 < len) {
                     h->k[K_SHIFT_POS]++;
                     nontrivial = 1;
                 }
+                if (large) {
+                    note_range(h, len, len - 1, len - 1 - off);
+                }
                 hh = vf_mix(vf_mix(vf_mix(hh, 5), len), off);
                 in->del(h->mem, len, off);
                 ref_delete(h, len, off);
-                bad = check_state(h, "delete", -1);
+                bad = check_state(h, "delete", -1, off, len - 1);
                 break;
             }
             }
@@ -669,11 +1109,14 @@ void vf_run(vf_rd *r, vf_report *rep) {
                     h->k[K_SHIFT_SORTED]++;
                     nontrivial = 1;
                 }
+                if (large) {
+                    note_range(h, len, len, len - pos);
+                }
                 hh = vf_mix(vf_mix(vf_mix(hh, 6), len), v);
                 in->insertSorted(h->mem, len, v);
                 ref_insert(h, len, pos, v);
                 L = len + 1;
-                bad = check_state(h, "insertSorted", -1);
+                bad = check_state(h, "insertSorted", -1, pos, len);
                 break;
             }
             case 1: { /* member: first equal element or -1 */
@@ -685,6 +1128,9 @@ void vf_run(vf_rd *r, vf_report *rep) {
                 if (!L) {
                     h->k[K_SORTED_EMPTY]++;
                 }
+                if (large) {
+                    note_range(h, L, L / 2, 0);
+                }
                 hh = vf_mix(vf_mix(vf_mix(hh, 7), L), v);
                 int64_t got = in->member(h->mem, L, v);
                 if (got != want) {
@@ -695,7 +1141,7 @@ void vf_run(vf_rd *r, vf_report *rep) {
                                   (long long)got, (long long)want);
                     break;
                 }
-                bad = check_state(h, "member", -1);
+                bad = check_state(h, "member", -1, NOWRITE);
                 break;
             }
             case 2: { /* deleteMember */
@@ -707,6 +1153,10 @@ void vf_run(vf_rd *r, vf_report *rep) {
                 if (want && pos + 1 < L) {
                     h->k[K_SHIFT_SORTED]++;
                     nontrivial = 1;
+                }
+                if (large) {
+                    note_range(h, L, want ? L - 1 : L / 2,
+                               want ? L - 1 - pos : 0);
                 }
                 hh = vf_mix(vf_mix(vf_mix(hh, 8), L), v);
                 int got = in->deleteMember(h->mem, L, v);
@@ -720,8 +1170,10 @@ void vf_run(vf_rd *r, vf_report *rep) {
                 if (want) {
                     ref_delete(h, L, pos);
                     L--;
+                    bad = check_state(h, "deleteMember", -1, pos, L);
+                } else {
+                    bad = check_state(h, "deleteMember", -1, NOWRITE);
                 }
-                bad = check_state(h, "deleteMember", -1);
                 break;
             }
             case 3: { /* binarySearch: lower bound */
@@ -732,6 +1184,9 @@ void vf_run(vf_rd *r, vf_report *rep) {
                 if (want == L) {
                     h->k[K_BSEARCH_END]++;
                 }
+                if (large) {
+                    note_range(h, L, L / 2, 0);
+                }
                 hh = vf_mix(vf_mix(vf_mix(hh, 9), L), v);
                 uint32_t got = in->binarySearch(h->mem, L, v);
                 if (got != want) {
@@ -741,7 +1196,7 @@ void vf_run(vf_rd *r, vf_report *rep) {
                                   in->name, n, h->recno, h->opdesc, got, want);
                     break;
                 }
-                bad = check_state(h, "binarySearch", -1);
+                bad = check_state(h, "binarySearch", -1, NOWRITE);
                 break;
             }
             case 4: { /* positional delete inside the live prefix */
@@ -750,18 +1205,26 @@ void vf_run(vf_rd *r, vf_report *rep) {
                     h->k[K_SORTED_EMPTY]++;
                     break;
                 }
-                unsigned off = ((idx >> 9) & 3) == 3 ? 0 : idx9 % L;
+                unsigned off;
+                if (large) {
+                    off = pick_large_off(h, idx9, L);
+                } else {
+                    off = ((idx >> 9) & 3) == 3 ? 0 : idx9 % L;
+                }
                 OPDESC(h, "delete(len=%u,%u)", L, off);
                 h->k[K_DELETE]++;
                 if (off + 1 < L) {
                     h->k[K_SHIFT_SORTED]++;
                     nontrivial = 1;
                 }
+                if (large) {
+                    note_range(h, L, L - 1, L - 1 - off);
+                }
                 hh = vf_mix(vf_mix(vf_mix(hh, 10), L), off);
                 in->del(h->mem, L, off);
                 ref_delete(h, L, off);
                 L--;
-                bad = check_state(h, "delete", -1);
+                bad = check_state(h, "delete", -1, off, L);
                 break;
             }
             default: { /* get */
@@ -785,6 +1248,11 @@ void vf_run(vf_rd *r, vf_report *rep) {
             break;
         }
     }
+    if (large && !rep->violated && h->n > h->fullBound) {
+        /* what the watched regions did not cover */
+        OPDESC(h, "end of history (after %u records)", h->recno);
+        check_full(h, "final", -1);
+    }
     if (nontrivial && !rep->violated) {
         vf_nontrivial(hh);
     }
@@ -802,7 +1270,7 @@ static int sweep_setget(vf_report *rep, const c09_inst *in, unsigned n,
                         unsigned fill) {
     static hist H;
     hist *h = &H;
-    int bad = hist_open(h, rep, in, n, fill, 0);
+    int bad = hist_open(h, rep, in, n, fill, 0, 0, 0);
     if (!bad) {
         uint32_t expect = fill ? h->mask : 0;
         for (unsigned i = 0; i < n && !bad; i++) {
@@ -836,7 +1304,7 @@ static int sweep_setget(vf_report *rep, const c09_inst *in, unsigned n,
         OPDESC(h, "half(%u) from 0x%x", i, cur);
         in->half(h->mem, i);
         h->ref[i] = cur / 2;
-        bad = check_state(h, "half", (int)i);
+        bad = check_state(h, "half", (int)i, i, i);
         if (bad) {
             break;
         }
@@ -845,7 +1313,7 @@ static int sweep_setget(vf_report *rep, const c09_inst *in, unsigned n,
         OPDESC(h, "incr(%u,+%u) from 0x%x", i, m - cur, cur);
         in->incr(h->mem, i, (int64_t)(m - cur));
         h->ref[i] = m;
-        bad = check_state(h, "incr", (int)i);
+        bad = check_state(h, "incr", (int)i, i, i);
         if (bad) {
             break;
         }
@@ -860,7 +1328,7 @@ static int sweep_setget(vf_report *rep, const c09_inst *in, unsigned n,
 static int sweep_sorted(vf_report *rep, const c09_inst *in, unsigned n) {
     static hist H;
     hist *h = &H;
-    int bad = hist_open(h, rep, in, n, 1, 0);
+    int bad = hist_open(h, rep, in, n, 1, 0, 0, 0);
     unsigned L = 0;
     /* descending-ish insertion order so that most inserts shift */
     for (unsigned k = 0; k < n && !bad; k++) {
@@ -871,7 +1339,7 @@ static int sweep_sorted(vf_report *rep, const c09_inst *in, unsigned n) {
         in->insertSorted(h->mem, L, v);
         ref_insert(h, L, pos, v);
         L++;
-        bad = check_state(h, "insertSorted", -1);
+        bad = check_state(h, "insertSorted", -1, pos, L - 1);
     }
     for (unsigned k = 0; k < n && !bad; k++) {
         uint32_t v = h->ref[k];
@@ -901,13 +1369,282 @@ static int sweep_sorted(vf_report *rep, const c09_inst *in, unsigned n) {
         }
         ref_delete(h, L, pos);
         L--;
-        bad = check_state(h, "deleteMember", -1);
+        bad = check_state(h, "deleteMember", -1, pos, L);
     }
     hist_close(h);
     return bad;
 }
 
+/* large arrays: every instantiation with its maximum number of elements (the
+ * ones without limit: just past the element at bit position 2^16, and 70000
+ * for a few), every element written once, then single operations at the
+ * last element, around every power-of-two bit position and at the first
+ * elements, then sorted operations over the whole length */
+static int sweep_large(vf_report *rep, const c09_inst *in, unsigned n,
+                       unsigned order) {
+    static hist H;
+    hist *h = &H;
+    int bad = hist_open(h, rep, in, n, 1, vf_mix(0x5eed, n), 1, order);
+    const uint32_t m = h->mask;
+    unsigned idxs[64];
+    unsigned ni = 0;
+    if (!bad) {
+        idxs[ni++] = n - 1;
+        idxs[ni++] = 0;
+        for (unsigned p = 8; p < 40 && ((uint64_t)1 << p) < (uint64_t)n * h->B;
+             p++) {
+            unsigned e = (unsigned)(((uint64_t)1 << p) / h->B);
+            if (e > 0 && ni < 60) {
+                idxs[ni++] = e - 1;
+            }
+            if (e < n && ni < 60) {
+                idxs[ni++] = e;
+            }
+            if (e + 1 < n && ni < 60) {
+                idxs[ni++] = e + 1;
+            }
+        }
+        idxs[ni++] = n / 2;
+        idxs[ni++] = n > 1 ? n - 2 : 0;
+    }
+    for (unsigned k = 0; k < ni && !bad; k++) {
+        unsigned i = idxs[k];
+        uint32_t v = ~h->ref[i] & m;
+        h->recno++;
+        OPDESC(h, "set(%u,0x%x)", i, v);
+        bad = do_set(h, i, v);
+        if (bad) {
+            break;
+        }
+        h->recno++;
+        OPDESC(h, "half(%u) from 0x%x", i, v);
+        in->half(h->mem, i);
+        h->ref[i] = v / 2;
+        bad = check_state(h, "half", (int)i, i, i);
+        if (bad) {
+            break;
+        }
+        uint32_t cur = h->ref[i];
+        h->recno++;
+        OPDESC(h, "incr(%u,+%u) from 0x%x", i, m - cur, cur);
+        in->incr(h->mem, i, (int64_t)(m - cur));
+        h->ref[i] = m;
+        bad = check_state(h, "incr", (int)i, i, i);
+        if (bad) {
+            break;
+        }
+        h->recno++;
+        OPDESC(h, "get(%u)", i);
+        bad = do_get(h, i);
+    }
+    if (!bad) {
+        OPDESC(h, "end of the positional part");
+        bad = check_full(h, "final", -1);
+    }
+    if (!bad) {
+        /* sorted part: n - 1 live elements, insert the smallest value (shifts
+         * everything), look up the largest, delete the smallest again */
+        unsigned L = n - 1;
+        sorted_init(h, L, vf_mix(0x50, n));
+        memcpy(h->shadow, h->mem, h->bytes);
+        OPDESC(h, "init(sorted prefix of %u)", L);
+        bad = check_full(h, "init", -1);
+        if (!bad && L) {
+            uint32_t v = h->ref[0];
+            uint32_t top = h->ref[L - 1];
+            h->recno++;
+            OPDESC(h, "insertSorted(len=%u,0x%x)", L, v);
+            in->insertSorted(h->mem, L, v);
+            ref_insert(h, L, 0, v);
+            L++;
+            bad = check_state(h, "insertSorted", -1, 0, L - 1);
+            if (!bad) {
+                unsigned pos = lower_bound(h->ref, L, top);
+                h->recno++;
+                OPDESC(h, "member(len=%u,0x%x)", L, top);
+                int64_t got = in->member(h->mem, L, top);
+                uint32_t lb = in->binarySearch(h->mem, L, top);
+                if (got != (int64_t)pos || lb != pos) {
+                    bad = vf_fail(rep, "member.result", "value",
+                                  "%s n=%u sweep %s: member returned %lld, "
+                                  "binarySearch %u, reference %u",
+                                  in->name, n, h->opdesc, (long long)got, lb,
+                                  pos);
+                }
+            }
+            if (!bad) {
+                h->recno++;
+                OPDESC(h, "deleteMember(len=%u,0x%x)", L, v);
+                int got = in->deleteMember(h->mem, L, v);
+                if (!got) {
+                    bad = vf_fail(rep, "deleteMember.result", "value",
+                                  "%s n=%u sweep %s: returned 0 for a present "
+                                  "value",
+                                  in->name, n, h->opdesc);
+                } else {
+                    ref_delete(h, L, 0);
+                    L--;
+                    bad = check_state(h, "deleteMember", -1, 0, L);
+                }
+            }
+            if (!bad) {
+                OPDESC(h, "end of the sorted part");
+                bad = check_full(h, "final", -1);
+            }
+        }
+    }
+    hist_close(h);
+    return bad;
+}
+
+/* bit position 2^32: set/half/incr/get of the elements around index 2^32/B in
+ * a sparse mapping; the 17 elements around it, the first 256 elements and the
+ * first 128 KiB of the storage are compared after every operation.  Skipped
+ * for instantiations that cannot address such an element (PACK_MAX_ELEMENTS,
+ * or 1-bit elements with a 32-bit index). */
+#define SP_LOWN 256u
+#define SP_LOWBYTES ((size_t)1 << 17)
+#define SP_SPAN 8u
+
+typedef struct sparse {
+    vf_report *rep;
+    const c09_inst *in;
+    uint8_t *mem, *snap;
+    uint32_t lowref[SP_LOWN];
+    uint32_t hiref[2 * SP_SPAN + 1];
+    uint32_t hbase; /* index of hiref[0] */
+    char opdesc[72];
+} sparse;
+
+static int sparse_verify(sparse *sp) {
+    const c09_inst *in = sp->in;
+    for (unsigned j = 0; j <= 2 * SP_SPAN; j++) {
+        uint32_t g = in->get(sp->mem, sp->hbase + j);
+        if (g != sp->hiref[j]) {
+            return vf_fail(sp->rep, "sparse.high", "value",
+                           "%s sparse array, after %s: element %u reads 0x%x, "
+                           "reference 0x%x",
+                           in->name, sp->opdesc, sp->hbase + j, g,
+                           sp->hiref[j]);
+        }
+    }
+    if (memcmp(sp->mem, sp->snap, SP_LOWBYTES) != 0) {
+        size_t d = 0;
+        while (sp->mem[d] == sp->snap[d]) {
+            d++;
+        }
+        return vf_fail(sp->rep, "sparse.low", "isolation",
+                       "%s sparse array, after %s: storage byte %zu (bits of "
+                       "element %llu) changed 0x%02x -> 0x%02x",
+                       in->name, sp->opdesc, d,
+                       (unsigned long long)((uint64_t)d * 8 / in->bits),
+                       sp->snap[d], sp->mem[d]);
+    }
+    for (unsigned j = 0; j < SP_LOWN; j++) {
+        uint32_t g = in->get(sp->mem, j);
+        if (g != sp->lowref[j]) {
+            return vf_fail(sp->rep, "sparse.low", "value",
+                           "%s sparse array, after %s: element %u reads 0x%x, "
+                           "reference 0x%x",
+                           in->name, sp->opdesc, j, g, sp->lowref[j]);
+        }
+    }
+    return 0;
+}
+
+static int sweep_sparse(vf_report *rep, const c09_inst *in) {
+    static sparse SP;
+    sparse *sp = &SP;
+    const unsigned B = in->bits, sb = in->slotBytes, S = sb * 8;
+    const uint32_t mask = B >= 32 ? 0xffffffffu : (((uint32_t)1 << B) - 1);
+    const uint64_t idx32 = (((uint64_t)1 << 32) + B - 1) / B;
+    uint64_t limit = (uint64_t)1 << 32; /* the wrappers take 32-bit indices */
+    if (in->maxElements && in->maxElements < limit) {
+        limit = in->maxElements;
+    }
+    if (idx32 + SP_SPAN + 1 > limit) {
+        return 0;
+    }
+    const uint64_t n = idx32 + SP_SPAN + 1;
+    const uint64_t slots = (n * B + S - 1) / S;
+    const size_t maplen = (size_t)((slots * sb + 4095) & ~(uint64_t)4095);
+    void *p = mmap(NULL, maplen, PROT_READ | PROT_WRITE,
+                   MAP_PRIVATE | MAP_ANONYMOUS | MAP_NORESERVE, -1, 0);
+    if (p == MAP_FAILED) {
+        vf_class("sweep.sparse.unavailable");
+        return 0;
+    }
+    vf_class("sweep.bitpos-2^32");
+    sp->rep = rep;
+    sp->in = in;
+    sp->mem = (uint8_t *)p;
+    sp->snap = (uint8_t *)malloc(SP_LOWBYTES);
+    if (!sp->snap) {
+        abort();
+    }
+    sp->hbase = (uint32_t)(idx32 - SP_SPAN);
+    memset(sp->hiref, 0, sizeof(sp->hiref));
+    for (unsigned j = 0; j < SP_LOWN; j++) {
+        uint32_t v = (uint32_t)(vf_mix(0x10, j) >> 9) & mask;
+        in->set(sp->mem, j, v);
+        sp->lowref[j] = v;
+    }
+    memcpy(sp->snap, sp->mem, SP_LOWBYTES);
+    snprintf(sp->opdesc, sizeof(sp->opdesc), "set of elements 0..%u",
+             SP_LOWN - 1);
+    int bad = sparse_verify(sp);
+    static const int offs[7] = {8, -1, 0, 1, -2, 3, -8};
+    for (unsigned k = 0; k < 7 && !bad; k++) {
+        uint32_t t = (uint32_t)((int64_t)idx32 + offs[k]);
+        unsigned j = t - sp->hbase;
+        uint32_t v = ((uint32_t)(vf_mix(0x20, k) >> 9) & mask) | 1u;
+        snprintf(sp->opdesc, sizeof(sp->opdesc), "set(%u,0x%x)", t, v);
+        in->set(sp->mem, t, v);
+        sp->hiref[j] = v;
+        bad = sparse_verify(sp);
+        if (bad) {
+            break;
+        }
+        snprintf(sp->opdesc, sizeof(sp->opdesc), "half(%u) from 0x%x", t, v);
+        in->half(sp->mem, t);
+        sp->hiref[j] = v / 2;
+        bad = sparse_verify(sp);
+        if (bad) {
+            break;
+        }
+        snprintf(sp->opdesc, sizeof(sp->opdesc), "incr(%u,+%u) from 0x%x", t,
+                 mask - v / 2, v / 2);
+        in->incr(sp->mem, t, (int64_t)(mask - v / 2));
+        sp->hiref[j] = mask;
+        bad = sparse_verify(sp);
+    }
+    free(sp->snap);
+    munmap(p, maplen);
+    return bad;
+}
+
 void vf_sweep(vf_report *rep) {
+    for (unsigned c = 0; c < c09_ninst; c++) {
+        if (sweep_sparse(rep, c09_get(c))) {
+            return;
+        }
+    }
+    for (unsigned c = 0; c < c09_ninst; c++) {
+        const c09_inst *in = c09_get(c);
+        unsigned nmax = inst_nmax(in);
+        unsigned n = nmax;
+        if (!in->maxElements || in->maxElements > UNLIMITED_N) {
+            /* no limit: past bit position 2^16; the full 70000 for the
+             * tree's own variants and the 64-bit length type */
+            unsigned c16 = (65536 + in->bits - 1) / in->bits;
+            if (in->name[0] == 'i') {
+                n = c16 + 70;
+            }
+        }
+        if (sweep_large(rep, in, n, 1 + c % 3)) {
+            return;
+        }
+    }
     for (unsigned c = 0; c < c09_ninst; c++) {
         const c09_inst *in = c09_get(c);
         unsigned S = in->slotBytes * 8;
